@@ -74,3 +74,16 @@ Definition copy_or_grant (g : bool) (l : list region) (s : region) (total src nu
 (* footprints are good: non-empty ones satisfy range_good *)
 Definition acc_good (l : list region) (a : acc) : bool :=
   match a with RD p n | WR p n => range_good l p n end.
+
+(* ---------- back ends that CAN grant / deny access (using can_grant_deny_access = void) ----------
+   copy_memory_or_grant_access / copy_memory_or_deny_access first check that the buffer does not straddle a sandbox
+   boundary, then ask the back end ([succ]: its answer); only when it declines do they fall through to the copy path.
+   Result: (transferred without copying?, footprints of the copy path) *)
+Definition grant_or_copy (g : bool) (l : list region) (s : region) (total src num elsz : Z) (succ : bool) (mret : Z) : res (bool * list acc) :=
+  _ <- check_range g l src (w64 (num * elsz)) ;;
+  if succ then Ok (true, [])
+  else r <- copy_or_grant g l s total src num elsz mret ;; Ok (false, r).
+Definition deny_or_copy (g : bool) (l : list region) (src num elsz : Z) (succ : bool) : res (bool * list acc) :=
+  _ <- check_range g l src (w64 (num * elsz)) ;;
+  if succ then Ok (true, [])
+  else r <- copy_or_deny g l src num elsz ;; Ok (false, r).
